@@ -17,9 +17,13 @@ fn registry() -> Vec<PartDesc> {
     v.push(desc::<props::c04::C04>("fault_enumeration"));
     v.push(desc::<props::c05::C05>("exploration"));
     v.push(desc::<props::c06::C06>("exploration"));
+    v.push(desc::<props::c06::e2part::C06E2>("exploration"));
+    v.push(desc::<props::c06::e2part::C06E2X>("exploration"));
+    v.push(desc::<props::c06::e2part::C06Free>("exploration"));
     v.push(desc::<props::c07::C07E1>("exploration"));
     v.push(desc::<props::c07::C07E2>("exploration"));
     v.push(desc::<props::c07::C07E2X>("exploration"));
+    v.push(desc::<props::c07::C07Free>("exploration"));
     v.push(desc::<props::c09::C09>("exploration"));
     v.push(desc::<props::c10::C10E1>("exploration"));
     v.push(desc::<props::c10::C10E2>("exploration"));
